@@ -654,13 +654,39 @@ def try_to_hashable(
         return UnhashableError
 
 
+def _sort_key(obj: Any) -> tuple:
+    """Total, process-independent sort key for the members of a set or the keys of a mapping.
+
+    Plain ``sorted`` raises a `TypeError` for members of different types (``{1, "a"}``)
+    and silently keeps the iteration order for members that are only partially ordered
+    (frozensets), which makes the result depend on insertion order and ``PYTHONHASHSEED``.
+    Members that can be compared keep their natural order.
+    """
+    if isinstance(obj, tuple):
+        inner: Any = tuple(_sort_key(x) for x in obj)
+    elif isinstance(obj, frozenset):
+        inner = tuple(sorted(_sort_key(x) for x in obj))
+    elif isinstance(obj, int | float):
+        return ("", obj)  # all real numbers (incl. bool) are mutually comparable
+    elif isinstance(obj, str | bytes):
+        inner = obj
+    else:
+        inner = repr(obj)
+    tp = type(obj)
+    return (f"{tp.__module__}.{tp.__qualname__}", inner)
+
+
+def _sort_item_key(item: tuple[Any, Any]) -> tuple:
+    return _sort_key(item[0])
+
+
 def _hashable_iterable(
     iterable: Iterable,
     fallback_to_pickle: bool,  # noqa: FBT001
     *,
     sort: bool = False,
 ) -> tuple:
-    items = sorted(iterable) if sort else iterable
+    items = sorted(iterable, key=_sort_key) if sort else iterable
     return tuple(to_hashable(item, fallback_to_pickle) for item in items)
 
 
@@ -670,7 +696,7 @@ def _hashable_mapping(
     *,
     sort: bool = False,
 ) -> tuple:
-    items = sorted(mapping.items()) if sort else mapping.items()
+    items = sorted(mapping.items(), key=_sort_item_key) if sort else mapping.items()
     return tuple((k, to_hashable(v, fallback_to_pickle)) for k, v in items)
 
 
@@ -731,7 +757,7 @@ def to_hashable(  # noqa: C901, PLR0911, PLR0912
         )
         return (m, tp, data)
     if isinstance(obj, collections.Counter):
-        return (m, tp, tuple(sorted(obj.items())))
+        return (m, tp, tuple(sorted(obj.items(), key=_sort_item_key)))
     if isinstance(obj, dict):
         return (m, tp, _hashable_mapping(obj, fallback_to_pickle, sort=True))
     if isinstance(obj, set | frozenset):
